@@ -480,6 +480,10 @@ class SwiftJudge(Judge):
                             bad('obj_c_types: %s has no initWith%s' % (cname, tagp))
                         if ('method', '-', 'is' + tagp) not in seen:
                             bad('obj_c_types: %s has no is%s' % (cname, tagp))
+                        # a member with a value is read through a property of the union class itself (Objective-C union
+                        # classes do not inherit from the class of the parent union), inherited members included
+                        if not m['void'] and not any(k[0] == 'prop' and k[1] in (camel(m['n']), camel(m['n']) + '_') for k in seen):
+                            bad('obj_c_types: %s has no property for the value of member %s' % (cname, m['n']))
             if _seq(s['routes']):
                 ro = interfaces.get(pre + 'RouteObjects')
                 if ro is None:
